@@ -5,6 +5,10 @@ container) and to a 40-line list model; after *every* op N, the id sequence (ids
 field), N_active (documented cases), and hash lookups (live, removed and never-used hashes) are compared.
 Invalid requests must fail and leave the persisted state (sabin) unchanged.  Runs on the release and the
 ASan+UBSan builds (a sanitizer report kills the worker = observation "process-death").
+
+String names: reb_hash / rebound.hash (MurmurHash3 x86_32, seed 1983; the values are persisted in archives) are compared with an
+independent implementation written from the algorithm's published definition, for every length 0..70 and random printable
+strings, and named particles go through the same container operations (add(hash="name"), particles["name"], remove(hash="name")).
 """
 import json, random, sys
 from vf import core
@@ -125,8 +129,116 @@ class Gen:
         return dict(op='lookup', hash=r.getrandbits(32))
 
 
+# ---------------------------------------------------------------- independent MurmurHash3 x86_32
+def murmur3_32(data, seed=1983):
+    M = 0xffffffff
+    h = seed
+    n = len(data)
+    for i in range(0, n - n % 4, 4):
+        k = data[i] | data[i + 1] << 8 | data[i + 2] << 16 | data[i + 3] << 24
+        k = k * 0xcc9e2d51 & M
+        k = (k << 15 | k >> 17) & M
+        k = k * 0x1b873593 & M
+        h ^= k
+        h = (h << 13 | h >> 19) & M
+        h = (h * 5 + 0xe6546b64) & M
+    k = 0
+    t = data[n - n % 4:]
+    for j in range(len(t) - 1, -1, -1):
+        k ^= t[j] << (8 * j)
+    if t:
+        k = k * 0xcc9e2d51 & M
+        k = (k << 15 | k >> 17) & M
+        k = k * 0x1b873593 & M
+        h ^= k
+    h ^= n
+    h ^= h >> 16
+    h = h * 0x85ebca6b & M
+    h ^= h >> 13
+    h = h * 0xc2b2ae35 & M
+    h ^= h >> 16
+    return h
+
+
+def run_strhash(case):
+    """string -> hash function against the independent implementation, and named particles through the container."""
+    import warnings
+    from ctypes import c_uint32, c_char_p, byref, POINTER
+    import rebound
+    from rebound import clibrebound as clib
+    warnings.simplefilter('ignore')
+    r = random.Random(case['hseed'])
+    viol = []
+    counters = dict(strhash_values=0, strhash_lengths=0, named_ops=0, named_lookups=0)
+    clib.reb_hash.restype = c_uint32
+    alphabet = [chr(c) for c in range(32, 127)]
+    names = []
+    for n in range(0, 71):
+        counters['strhash_lengths'] += 1
+        for rep in range(3):
+            if rep == 0:
+                s = ''.join(r.choice('abcdefghijklmnopqrstuvwxyz') for _ in range(n))
+            elif rep == 1:
+                s = ''.join(r.choice(alphabet) for _ in range(n))
+            else:
+                s = ''.join(r.choice('~}|{zyx') for _ in range(n))           # high code points in every tail position
+            want = murmur3_32(s.encode('ascii'))
+            got_c = clib.reb_hash(c_char_p(s.encode('ascii')))
+            got_py = rebound.hash(s).value
+            counters['strhash_values'] += 1
+            if got_c != want or got_py != want:
+                viol.append(dict(mech='strhash:differs-from-murmur3:len%%4=%d' % (n % 4), msg='reb_hash(%r)=%d rebound.hash=%d murmur3_32=%d' % (s, got_c, got_py, want)))
+                break
+            if n > 0:
+                names.append(s)
+        if viol:
+            break
+    # documented anchor values (docs: rebound.hash("earth") etc. are stable across versions because archives persist them)
+    if not viol:
+        sim = rebound.Simulation()
+        live = {}
+        r.shuffle(names)
+        nxt = 1
+        for k in range(case['nops']):
+            x = r.random()
+            counters['named_ops'] += 1
+            if x < 0.45 or not live:
+                nm = names[r.randrange(len(names))]
+                if nm in live:
+                    continue
+                sim.add(m=float(nxt), x=float(nxt), hash=nm)
+                live[nm] = nxt
+                nxt += 1
+            elif x < 0.7:
+                nm = r.choice(sorted(live))
+                ks = r.random() < 0.5
+                sim.remove(hash=nm, keep_sorted=ks)
+                del live[nm]
+            else:
+                nm = r.choice(names)
+                counters['named_lookups'] += 1
+                try:
+                    p = sim.particles[nm]
+                    found = int(p.m)
+                except rebound.ParticleNotFound:
+                    found = None
+                if found != live.get(nm):
+                    viol.append(dict(mech='lookup:by-name', msg='particles[%r] -> id %r, model %r' % (nm, found, live.get(nm))))
+                    break
+            if sim.N != len(live) or sorted(int(p.m) for p in sim.particles) != sorted(live.values()):
+                viol.append(dict(mech='bookkeeping:named-particles', msg='after %d named ops: ids %r model %r' % (k, sorted(int(p.m) for p in sim.particles)[:30], sorted(live.values())[:30])))
+                break
+            for nm, i in list(live.items())[:3]:
+                if sim.particles[nm].hash.value != murmur3_32(nm.encode('ascii')):
+                    viol.append(dict(mech='strhash:stored-hash-differs', msg='particle named %r carries %d' % (nm, sim.particles[nm].hash.value)))
+                    break
+    return dict(violations=viol, cell=['strhash', int(counters['named_lookups'] > 0)], counters=counters, sample=dict(case=case))
+
+
 # ---------------------------------------------------------------- runner (worker side)
 def run_case(case):
+    if case.get('kind') == 'strhash':
+        return run_strhash(case)
     import ctypes
     from ctypes import byref, c_uint32, c_int, POINTER
     import warnings
@@ -424,6 +536,8 @@ def plan(tier, seed):
         case = dict(hseed=r.getrandbits(48), nops=nops if r.random() < 0.8 else nops * 4, api=r.choice(['c', 'py']),
                     mode=mode, dups=r.random() < 0.5, force_sorted=mode in ('mercurius', 'trace'), variant=variant)
         plans[variant].append(case)
+    for i in range(4 if tier == 'quick' else 40):
+        plans['asan' if i % 2 else 'rel'].append(dict(kind='strhash', hseed=r.getrandbits(48), nops=300 if tier == 'quick' else 1500))
     return plans
 
 
@@ -434,14 +548,15 @@ def main(tier, seed):
         for c, r in zip(cases, res):
             V.absorb(c, r, crash_mech)
     inc = []
-    for k in ('lookups_hit', 'lookups_miss', 'invalid_ops', 'unsorted_removals', 'sorted_removals', 'growth_crossings'):
+    for k in ('lookups_hit', 'lookups_miss', 'invalid_ops', 'unsorted_removals', 'sorted_removals', 'growth_crossings', 'strhash_values', 'named_lookups'):
         if V.counters.get(k, 0) == 0:
             inc.append("monitor counter %s is zero" % k)
     return V.finish(
         rule="random op histories (add/remove by index|hash sorted|unsorted/set-hash/lookup/remove-all/set N_active, valid and invalid) "
              "replayed against the real simulation (C API and Python container; plain/MERCURIUS/TRACE; rel and ASan+UBSan builds) and a list model, "
              "compared after every op. A cell = (api, integrator mode, build, duplicate/zero hashes used, storage-growth class, unsorted removals seen, "
-             "invalid requests seen); a history counts only if >=20 ops were compared.",
+             "invalid requests seen); a history counts only if >=20 ops were compared. String names: reb_hash and rebound.hash vs an independent "
+             "MurmurHash3 for every length 0..70, and named particles through add/remove/lookup by name.",
         assumptions=["ids carried in the mass field identify particles", "N_active is compared only where the code documents an adjustment (sorted removal leaving N>=1, remove-all, explicit set)",
                      "ASan red zones: intra-object overflows are invisible"],
         floor=8, inconclusive_if=inc)
